@@ -256,6 +256,22 @@ func run(c Case) vt.Verdict {
 		for i := range y {
 			y[i] = x[len(x)-1-i] ^ 0x5A
 		}
+		// the two payloads are consecutive windows of one buffer, the way chunks are cut out of a dataset buffer: encoding the
+		// first must not write into the bytes behind it
+		both := make([]byte, 0, 2*len(x)+16)
+		both = append(append(both, x...), y...)
+		if len(x) > 0 {
+			encW, err := pipe.Apply(both[:len(x)])
+			if err != nil {
+				return bad("pipeline.Apply refused the payload when it is a window of a larger buffer: %v", err)
+			}
+			if !bytes.Equal(both[len(x):len(x)+len(y)], y) {
+				return bad("pipeline.Apply on a window of a larger buffer wrote beyond the window (first changed byte %d behind it)", firstDiff(both[len(x):len(x)+len(y)], y))
+			}
+			if !bytes.Equal(encW, encSnap) {
+				return bad("pipeline.Apply gives different bytes for the same payload when it is a window of a larger buffer (first diff %d)", firstDiff(encW, encSnap))
+			}
+		}
 		yIn := append([]byte{}, y...)
 		enc2, err := pipe.Apply(yIn)
 		if err != nil {
@@ -293,6 +309,12 @@ func run(c Case) vt.Verdict {
 	for _, w := range fs {
 		flags, cd := w.Encode()
 		msg.Filters = append(msg.Filters, core.Filter{ID: core.FilterID(w.ID()), Flags: flags, NumClientData: uint16(len(cd)), ClientData: cd, Name: w.Name()})
+	}
+	// the chunk readers pass the size of the chunk in memory as the limit for what decoding may produce
+	if ldec, lerr := msg.ApplyFiltersLimit(append([]byte{}, enc...), uint64(len(x))); len(x) > 0 && (lerr != nil || !bytes.Equal(ldec, x)) {
+		if _, perr := msg.ApplyFilters(append([]byte{}, enc...)); perr == nil {
+			return vt.Bad("reader decodes the chunk without a size limit but not with the chunk's own size (%d bytes) as the limit: err %v", len(x), lerr)
+		}
 	}
 	rdec, err := msg.ApplyFilters(append([]byte{}, enc...))
 	emptyShuffle := len(x) == 0 // reader refuses zero-length input for shuffle; chunks are never empty
